@@ -235,21 +235,48 @@ def check_codec(acc, seed, n):
 
 
 def check_undef(acc):
+    """A class handed out without a stated version (get(name), group[name]) cannot be subclassed -- in whatever way the
+    subclass is written; the same plugin handed out WITH a version can, in each of these ways."""
     from metador_core.plugins import schemas
-    for ref in list(schemas.keys())[:12]:
+
+    def bodies(tag):
+        plug = type("Plugin", (), {"name": f"c16.sub{tag}", "version": (0, 1, 0)})
+        return {
+            "empty body": lambda: {},
+            "own inner Plugin class": lambda: {"Plugin": plug},
+            "inner Plugin = None": lambda: {"Plugin": None},
+            "new annotated field": lambda: {"__annotations__": {"zz_extra": int}, "zz_extra": 0},
+            "method only": lambda: {"helper": lambda self: 1},
+        }
+
+    class Mixin:
+        pass
+
+    for i, ref in enumerate(list(schemas.keys())[:12]):
         acc.case(["undef", ref.name], nontrivial=True)
-        acc.count("undef_checks")
-        c0 = schemas.get(ref.name)
-        try:
-            type(c0)("X", (c0,), {})
-            acc.violation("undefversion", f"class obtained by get({ref.name!r}) without version can be subclassed", {"kind": "undef", "name": ref.name})
-        except TypeError:
-            pass
-        c1 = schemas.get(ref.name, tuple(ref.version))
-        try:
-            type(c1)("Y", (c1,), {})
-        except TypeError as e:
-            acc.violation("undefversion", f"class obtained WITH version cannot be subclassed: {e}", {"kind": "undef", "name": ref.name})
+        marked = {"get(name)": schemas.get(ref.name), "group[name]": schemas[ref.name]}
+        versioned = schemas.get(ref.name, tuple(ref.version))
+        for how, c0 in marked.items():
+            for bname, body in bodies(i).items():
+                for bases_name, bases in (("single base", (c0,)), ("with a mixin", (c0, Mixin)), ("mixin first", (Mixin, c0))):
+                    acc.count("undef_checks")
+                    try:
+                        type(c0)("X", bases, body())
+                    except TypeError:
+                        continue
+                    except Exception:
+                        continue  # refused for another reason: still not subclassed
+                    acc.violation("undefversion", f"class obtained by {how} for {ref.name!r} (no version stated) can be subclassed ({bname}, {bases_name})",
+                                  {"kind": "undef", "name": ref.name})
+                    break
+        for bname, body in bodies(i).items():
+            if bname in ("new annotated field",) and getattr(versioned.__config__, "extra", None) and str(versioned.__config__.extra).endswith("forbid"):
+                continue  # (a parent that forbids extras rightly refuses new fields)
+            acc.count("undef_controls")
+            try:
+                type(versioned)("Y", (versioned,), body())
+            except TypeError as e:
+                acc.violation("undefversion", f"class obtained WITH version cannot be subclassed ({bname}): {e}", {"kind": "undef", "name": ref.name})
 
 
 # ------------------------------------------------------------------ runner interface
